@@ -11,16 +11,16 @@ from .. import core, enum, outparse, probes
 ID = 'C04'
 RULE = ('inline: every payload up to the bound over the 26-symbol punctuation alphabet, encoded in three ways (all specials escaped / balanced braces bare / every character escaped), '
         'in 5 positions (alone, before a child, with attributes and a sibling, in a repeated group, as last child); random payloads <= 30 and payloads with balanced braces nested up to 5 deep; '
-        'wrap: lists of 0-6 lines incl. blank ones and syntax look-alikes x 17 abbreviation shapes (placeholders in text / attribute / both / none, '
+        'wrap: lists of 0-40 lines incl. blank ones and syntax look-alikes x 17 fixed abbreviation shapes + generated trees with one implicit repeater anywhere, explicit repeaters around and inside it and $# sites in text / attributes (model unrolls the written tree line by line) (placeholders in text / attribute / both / none, '
         'implicit repeater on element or group, no implicit repeater), list and single-string text. Non-trivial = payload has >= 1 character that is '
         'special in the abbreviation language / wrap list has >= 2 non-blank lines; distinct by (abbreviation, text)')
 ASSUMPTIONS = ['lines containing a double quote are not placed at $# sites inside attribute values (the output would not be readable unambiguously)',
                'payloads and lines exclude "<" (output is read with a tag scanner) and line breaks inside one inline payload',
                'multi-line wrap text is compared modulo the re-indentation of continuation lines; a single string with an implicit repeater modulo surrounding blanks',
-               'exactly one implicit repeater per abbreviation (the statement does not define several)']
+               'exactly one implicit repeater per abbreviation, executed once (no explicitly repeated ancestor): the statement does not define several executions']
 ALPHA = ['a', '$', '*', '>', '+', '^', '(', ')', '[', ']', '{', '}', '"', "'", '\\', '#', '.', ' ', 'é', '@', '-', '1', '/', '!', '=', ':']
 BOUNDS = {'quick': {'maxlen': 3, 'stride': 1, 'random': 1200, 'wrap': 900}, 'thorough': {'maxlen': 4, 'stride': 2, 'random': 12000, 'wrap': 14000}}
-FLOORS = {'quick': {'inline:enum': 170000, 'inline:random': 30000, 'inline:nested': 8000, 'wrap': 6000}, 'thorough': {'inline:enum': 2000000, 'inline:random': 500000, 'inline:nested': 100000, 'wrap': 200000}}
+FLOORS = {'quick': {'inline:enum': 170000, 'inline:random': 30000, 'inline:nested': 8000, 'wrap': 6000, 'wrap:generated': 3000}, 'thorough': {'inline:enum': 2000000, 'inline:random': 500000, 'inline:nested': 100000, 'wrap': 200000, 'wrap:generated': 90000}}
 REQUIRED_MONITORS = ['oracle:inline-text', 'oracle:wrap-copies', 'oracle:wrap-lines']
 
 
@@ -287,6 +287,139 @@ LINES = ['a', '', '  b  ', 'ul>li*3', '$#', '${1}', 'item $', '*', '{x}', '[a=b]
          '\\{', '}', '.cls#id', 'lorem10', 'a*', '$', 'p>{t}', '@', '100%', '1. first', '- second', '\t tab', 'x/', '!', 'a:b=c']
 
 
+# ---- generated wrap shapes: one implicit repeater anywhere in a random tree, explicit repeaters around / inside it,
+# $# sites only inside the implicit subtree; the model unrolls the written tree line by line.
+class WNode:
+    __slots__ = ('name', 'rep', 'text', 'attr', 'ch', 'group')
+
+    def __init__(self):
+        self.name = None
+        self.rep = None       # None | int | '*'
+        self.text = None      # text template with $# sites, or plain text
+        self.attr = None      # attribute value template (may contain $#)
+        self.ch = []
+        self.group = False
+
+
+def gen_wrap_tree(rng):
+    counter = [0]
+
+    def node(depth):
+        n = WNode()
+        if depth < 3 and rng.random() < 0.15:
+            n.group = True
+            n.ch = [node(depth + 1) for _ in range(rng.randint(1, 2))]
+        else:
+            counter[0] += 1
+            n.name = 'x-%s' % 'abcdefghijklmnop'[counter[0] % 16]
+            if depth < 3 and rng.random() < 0.55:
+                n.ch = [node(depth + 1) for _ in range(rng.randint(1, 2))]
+        if rng.random() < 0.3:
+            n.rep = rng.choice([2, 2, 3])
+        return n
+    root = [node(0) for _ in range(rng.randint(1, 2))]
+    allnodes = []
+
+    def collect(ns):
+        for n in ns:
+            allnodes.append(n)
+            collect(n.ch)
+    collect(root)
+    imp = rng.choice(allnodes)
+    imp.rep = '*'
+
+    # the implicit repeater is executed once: no explicitly repeated ancestor (what a second execution receives is not defined)
+    def strip(ns):
+        for n in ns:
+            if n is imp:
+                return True
+            if strip(n.ch):
+                n.rep = None
+                return True
+        return False
+    strip(root)
+    inside = []
+
+    def collect_in(ns):
+        for n in ns:
+            if not n.group:
+                inside.append(n)
+            collect_in(n.ch)
+    collect_in([imp])
+    if rng.random() < 0.6:
+        for n in rng.sample(inside, min(len(inside), rng.randint(1, 2))):
+            if rng.random() < 0.6:
+                n.text = rng.choice(['$#', '[$#]', 'a $# b', '$# - $#'])
+            else:
+                n.attr = rng.choice(['$#', 'v-$#'])
+    for n in allnodes:
+        if not n.group and n.text is None and rng.random() < 0.15:
+            n.text = rng.choice(['t', 'k '])
+    return root, imp
+
+
+def wrap_write(nodes):
+    parts = []
+    for n in nodes:
+        if n.group:
+            s = '(' + wrap_write(n.ch) + ')'
+        else:
+            s = n.name
+            if n.attr is not None:
+                s += '[t="%s"]' % n.attr
+            if n.text is not None:
+                s += '{%s}' % n.text
+        if n.rep is not None:
+            s += '*' if n.rep == '*' else '*%d' % n.rep
+        if not n.group and n.ch:
+            s += '>' + wrap_write(n.ch)
+            if len(nodes) > 1:
+                s = '(' + s + ')'
+        parts.append(s)
+    return '+'.join(parts)
+
+
+def has_placeholder(n):
+    return ('$#' in (n.text or '')) or ('$#' in (n.attr or '')) or any(has_placeholder(c) for c in n.ch)
+
+
+def wrap_model(nodes, lines, line=None):
+    "expected output tree: list of [name, attr|None, text|None, children]"
+    out = []
+    for n in nodes:
+        if n.rep == '*':
+            for l in lines:
+                items = wrap_model_one(n, lines, l)
+                if not has_placeholder(n) and items:
+                    t = items[-1]
+                    while t[3]:
+                        t = t[3][-1]
+                    t[2] = (t[2] or '') + l
+                out += items
+        else:
+            for _ in range(n.rep or 1):
+                out += wrap_model_one(n, lines, line)
+    return out
+
+
+def wrap_model_one(n, lines, line):
+    if n.group:
+        return wrap_model(n.ch, lines, line)
+    sub = (lambda s: s.replace('$#', line if line is not None else '')) if True else None
+    return [[n.name, sub(n.attr) if n.attr is not None else None, sub(n.text) if n.text is not None else None, wrap_model(n.ch, lines, line)]]
+
+
+def wrap_flat(tree):
+    out = []
+    for name, attr, text, ch in tree:
+        out.append(['open', name, [['t', '"%s"' % attr]] if attr is not None else []])
+        if text:
+            out.append(['text', text])
+        out += wrap_flat(ch)
+        out.append(['close', name])
+    return out
+
+
 def shards(tier, seed):
     n = 12 if tier == 'quick' else 16
     b = BOUNDS[tier]
@@ -315,6 +448,14 @@ def run_shard(desc, ctx):
                 mon.inline(p, rng.randint(0, 2), ti, 'inline:random')
             q = nested_payload(rng)
             mon.inline(q, rng.randint(0, 1), rng.randrange(len(TEMPLATES)), 'inline:nested')
+        for _ in range(desc['wrap'] // 2):
+            root, imp = gen_wrap_tree(rng)
+            lines = [rng.choice(LINES) for _ in range(rng.randint(0, 5))]
+            lines = [l for l in lines if '"' not in l]
+            clean_lines = [l.strip() for l in lines if l.strip()]
+            ab = wrap_write(root)
+            exp = wrap_flat(wrap_model(root, clean_lines))
+            mon.wrap((ab, lambda text, e=exp: e), lines, 'wrap:generated')
         for _ in range(desc['wrap']):
             shape = rng.choice(SHAPES)
             r = rng.random()
